@@ -87,7 +87,8 @@ REGISTRY["C04"] = {
     "level": "exploration",
     "level_text": ("Bounded-exhaustive table (1..4 conditional flows x default absent or at every position of the outgoing listing x all 2^k truth "
                    "assignments x 1..3 tokens arriving, concurrently for k>1, x expr and XPath) plus rapid-drawn cases with comparison, compound, informal "
-                   "and data-object conditions, permuted declaration order and sequential/concurrent arrival. Oracle: per token exactly one downstream "
+                   "and data-object conditions, a (true / false) condition on the default flow itself, permuted declaration order, sequential/concurrent arrival "
+                   "and a funnel topology (2-3 incoming flows, up to 6 tokens at once). Oracle: per token exactly one downstream "
                    "request - first true condition in listing order, else default - otherwise no flow and one ExclusiveNoEffectiveSequenceFlows error "
                    "trace per token naming the gateway; trace-level flow count at the gateway; completion iff a route existed."),
     "level_note": "Trusted: the 20-line routing rule in props/c04 (first true in listing order, else default), quiescence detector, schema.Parse. XPath getDataObject is excluded (the repository's own test for it is skipped as not working).",
@@ -129,7 +130,8 @@ REGISTRY["C12"] = {
                    "blocks wrapped in 1..3 nested embedded sub-processes (inside parallel/inclusive branches too). Each run is in lock-step with the token "
                    "game (so the first request after the sub-process appears only after the last inner answer, exactly once; one ProcessLandMarkTrace per "
                    "activation; the enclosing instance completes) and the two engine runs must request the same logical tasks at every step and end with the "
-                   "same variables and completion status."),
+                   "same variables and completion status. TestC12MultiStart: sub-processes with 1..3 inner start events whose branches hold 0..2 tasks or are consumed at the start "
+                   "event itself (false condition), optionally inside a parallel branch, under perturbation at start.flow / subprocess.activate, in lock-step with the token game."),
     "level_note": LOCKSTEP_TRUST + " Blocks that contain an early end event are not wrapped (an end event inside a sub-process ends only the inner token, so the wrapped program is not equivalent by BPMN semantics).",
     "technique": "rapid property test: metamorphic relation (wrapped vs inlined program under the same schedule) plus lock-step model conformance",
     "rule": ("Distinct = (program, wrapped block indices and nesting levels, language, data, plan, schedule). Non-trivial = at least one wrapped block contains a task. "
@@ -148,7 +150,7 @@ REGISTRY["C08"] = {
     "level": "exploration",
     "level_text": ("rapid-drawn answer histories per task request: 1..3 Do calls, sequential or released concurrently, each a distinguishable payload "
                    "(results with declared/undeclared names, data outputs declared/undeclared, error without handler, skip, exit, retry 0..3), up to 4 attempts "
-                   "(re-requests), all nine task kinds, a downstream exclusive gateway that reads the stored result, error modes on the downstream task too. "
+                   "(re-requests), all nine task kinds, a downstream exclusive gateway that reads the stored result (or no outgoing flow at all: implicit end), error modes on the downstream task too. "
                    "After each attempt the instance is brought to quiescence: every Do must have returned (a Do goroutine parked at the fixpoint is the "
                    "'blocks forever' verdict), and requests/variables/data objects/error-trace count must equal the model outcome of exactly one of the "
                    "allowed effective calls (the first for sequential calls, any one for concurrent calls). Perturbation point inside Do widens the race window."),
@@ -163,7 +165,8 @@ REGISTRY["C08"] = {
 REGISTRY["C02"] = {
     "pkg": "props/c02",
     "level": "exploration",
-    "level_text": ("rapid-drawn histories over an instance's life: processes with 1..3 start events (separate or merging chains, optional parallel block), "
+    "level_text": ("rapid-drawn histories over an instance's life: processes with 1..3 start events (separate or merging chains, optional parallel block, forks with a branch that ends at once, "
+                   "start events whose only outgoing flow is false), "
                    "actions {answer a pending task, start a waiter, start a waiter whose context expires, start 2..4 concurrent waiters, wait again after an "
                    "expiry}, schedule perturbation at the start-up window. After every action the instance is brought to quiescence and the invariant is "
                    "checked: StartAll returned; no waiter returned true while the model holds a token; a waiter with a live context never returned false; an "
@@ -303,7 +306,7 @@ REGISTRY["C16"] = {
     "level_text": ("rapid-drawn Go values (all signed/unsigned integer widths within int64, float32/64 incl. boundary values, -0, subnormals, 1e+-300; strings with "
                    "unicode/control characters/JSON-looking text; bool; nil; nested map[string]any, []any, typed slices, arrays, byte slices, tagged structs with "
                    "unexported fields, single-level pointers incl. nil; depth <= 4) through four doors: schema.NewValue / typed Value.ValueFrom with every declared "
-                   "item type incl. unknown ones and nil, WithVariables, DoWithResults (declared field types), DoWithObjects, and olive property/header references "
+                   "item type incl. unknown ones and nil, WithVariables, DoWithResults (declared field types), DoWithObjects, 1..3 data objects declared in the model with JSON bodies, and olive property/header references "
                    "to present, absent and malformed paths; two instances alive at once. Oracle: an independently written canonicaliser (encoding/json semantics "
                    "inside containers) - read-back value and item type must equal canon(v); nothing panics (a panic in an engine goroutine kills the worker and "
                    "is recovered from the journal); variables never cross instances."),
